@@ -256,10 +256,10 @@ Qed.
 (* Strings and regexps.                                                *)
 
 Lemma next_token_string : forall q s rest prev,
-  is_quote q = true -> nul_free s = true ->
+  is_quote q = true ->
   next_token (quote q s ++ rest) prev = (mkTok TString s, rest, TString).
 Proof.
-  intros q s rest prev Hq Hs. unfold quote.
+  intros q s rest prev Hq. unfold quote.
   cbn [app]. rewrite <- app_assoc. cbn [app].
   rewrite next_token_eq, skip_trivia_quote, nt_body_quote by assumption.
   rewrite read_string_quote_body; auto.
@@ -278,20 +278,20 @@ Proof.
 Qed.
 
 Lemma next_token_regexp : forall s rest prev,
-  slash_is_division prev = false -> s <> [] -> nul_free s = true ->
+  slash_is_division prev = false -> s <> [] ->
   tail_ok rest = true ->
   next_token (re_lit s ++ rest) prev = (mkTok TRegexp s, rest, prev).
 Proof.
-  intros s rest prev Hp Hn Hs Ht. unfold re_lit.
+  intros s rest prev Hp Hn Ht. unfold re_lit.
   cbn [app]. rewrite <- app_assoc. cbn [app].
   rewrite next_token_eq.
   rewrite skip_trivia_none;
     [| reflexivity | rewrite re_body_head by assumption; reflexivity].
   rewrite nt_body_slash_re by assumption.
   rewrite read_regexp_re_body;
-    [| assumption | cbn [List.length]; rewrite app_length; simpl; lia].
+    [| cbn [List.length]; rewrite app_length; simpl; lia].
   rewrite read_regexp_S.
-  change (47 =? 0) with false. change (47 =? 47) with true. cbv iota.
+  change (47 =? 47) with true. cbv iota.
   rewrite tail_no_flags by assumption. cbv iota zeta.
   change (flags_ok []) with true. cbv iota.
   rewrite app_nil_r, rev_involutive. reflexivity.
@@ -327,10 +327,10 @@ Proof.
     apply next_token_float_tail; assumption.
   - (* string *)
     assert (ty = TString) by (destruct ty; try discriminate Ec; reflexivity). subst ty.
-    apply next_token_string; [reflexivity|assumption].
+    apply next_token_string; reflexivity.
   - (* regexp *)
     assert (ty = TRegexp) by (destruct ty; try discriminate Ec; reflexivity). subst ty.
-    apply andb_true_iff in Hl. destruct Hl as [H1 H2]. apply is_nil_false in H1.
+    apply is_nil_false in Hl.
     cbn [ctx_ok next_prev] in *. apply negb_true_iff in Hx.
     apply next_token_regexp; assumption.
   - (* the zero token *)
@@ -595,9 +595,27 @@ Example ex_sep_comment_first :
   Some [mkTok TIdent (L "x"); mkTok TInt (L "2"); mkTok TEOF []].
 Proof. vm_compute. reflexivity. Qed.
 
-(* the lexer can produce a regexp text with a NUL (backslash NUL); re_lit has
-   no spelling for it, hence lexable excludes it *)
+(* the character 0 is an ordinary character inside string literals, regexp
+   literals and comments: such tokens are lexable and round-trip, written
+   plainly or (in a regexp) after a backslash *)
 Example ex_regexp_nul :
   lex [47; 92; 0; 47] = Some [mkTok TRegexp [0]; mkTok TEOF []] /\
-  lex (unlex [mkTok TRegexp [0]]) = Some [mkTok TIllegal []; mkTok TIllegal []; mkTok TIllegal []; mkTok TEOF []].
-Proof. vm_compute. split; reflexivity. Qed.
+  lexable [mkTok TRegexp [0]] = true /\
+  lex (unlex [mkTok TRegexp [0]]) = Some [mkTok TRegexp [0]; mkTok TEOF []].
+Proof. vm_compute. repeat split; reflexivity. Qed.
+
+Example ex_nul_roundtrip :
+  let ts := [op TLParen; mkTok TRegexp [97; 0; 98]; mkTok TString [0]; mkTok TString [97; 0; 98]] in
+  lexable ts = true /\
+  lex (unlex ts) = Some (ts ++ [mkTok TEOF []]) /\
+  sep_ok [Ws 32; Cm [99; 0; 100]] = true /\
+  lex (unlex_sep [Ws 32; Cm [99; 0; 100]] ts) = Some (ts ++ [mkTok TEOF []]).
+Proof. vm_compute. repeat split; reflexivity. Qed.
+
+(* where a token starts the character 0 is still illegal, so it cannot be
+   part of an identifier or of a layout block *)
+Example ex_nul_token_start :
+  lexable [mkTok TIdent [97; 0]] = false /\
+  layout_ok [Ws 0] = false /\
+  lex [97; 0; 98] = Some [mkTok TIdent [97]; mkTok TIllegal []; mkTok TIdent [98]; mkTok TEOF []].
+Proof. vm_compute. repeat split; reflexivity. Qed.
